@@ -85,6 +85,7 @@ def run_check(prop, tier, seed, jobs):
     scale = float(os.environ.get("VERIF_SCALE", "1"))
     ncases = max(jobs, int(ncases * scale))
     outdir = os.path.join(HERE, "out", prop)
+    shutil.rmtree(outdir, ignore_errors=True)  # replay files of earlier runs are stale
     os.makedirs(outdir, exist_ok=True)
     tmp = tempfile.mkdtemp(prefix=f"vmon-{prop}-", dir=os.path.join(HERE, "out"))
     procs = []
@@ -145,7 +146,7 @@ def run_check(prop, tier, seed, jobs):
         if k in known:
             lines.append(f"KNOWN-FINDING: property={prop} {known[k]['what']} [key={k}; {vcounts.get(k, len(by_key[k]))} witnesses this run]")
     replay_paths = []
-    for k in sorted(new_keys)[:10]:
+    for rank_, k in enumerate(sorted(new_keys)[:40]):
         v = sorted(by_key[k], key=lambda x: len(json.dumps(x["case"], default=str)))[0]
         h = hashlib.sha1(json.dumps(v["case"], sort_keys=True, default=str).encode()).hexdigest()[:10]
         path = os.path.join(outdir, f"{sanitize(k)}-{h}.json")
@@ -153,8 +154,11 @@ def run_check(prop, tier, seed, jobs):
             json.dump({"property": prop, "key": k, "msg": v["msg"], "detail": v["detail"], "case": v["case"], "tier": tier,
                        "seed": seed, "idx": v.get("idx"), "witnesses": vcounts.get(k)}, fh, indent=1, default=str)
         replay_paths.append(path)
-        lines.append(f"VIOLATION property={prop} replay={path}")
-        lines.append(f"  key={k} witnesses={vcounts.get(k)} :: {v['msg']}")
+        if rank_ < 10:
+            lines.append(f"VIOLATION property={prop} replay={path}")
+            lines.append(f"  key={k} witnesses={vcounts.get(k)} :: {v['msg'][:300]}")
+        elif rank_ == 10:
+            lines.append(f"  ... {len(new_keys) - 10} more violation keys, replay files in {outdir}")
     # ---- verdict inputs
     anchors = getattr(mod, "ANCHORS", [])
     anchor_reach = {a: sum(n for q, n in reach.items() if q.endswith(a)) for a in anchors}
